@@ -51,7 +51,7 @@ def preload():
         importlib.import_module(m)
 
 
-EXPECTED_PROBES = {t: ["configurations_in_place", "depth3_module", "dotted_path_3", "service_in_module", "device_in_module", "impl_in_module",
+EXPECTED_PROBES = {t: ["root_path:rel", "root_path:dotdot", "root_path:symlink", "configurations_in_place", "depth3_module", "dotted_path_3", "service_in_module", "device_in_module", "impl_in_module",
                        "enum_in_module", "module_uses_grandchild_decl", "missing_at_depth3", "two_modules_same_basename"]
                    for t in TIERS}
 
@@ -121,10 +121,29 @@ def make_fault(rng, node, kind, files):
     raise ValueError(kind)
 
 
-def judge(par, base: Path, files, root_rel, expect, logger_mode):
+def root_path(base: Path, root_rel: str, style: str):
+    """How the root file is named to get_fcp: modules must resolve relative to the importing FILE whatever the spelling."""
+    if style == "rel":
+        os.chdir(base)
+        return Path(root_rel)
+    if style == "dotdot":
+        (base / "zz").mkdir(exist_ok=True)
+        return base / "zz" / ".." / root_rel
+    if style == "symlink":
+        link = base.parent / (base.name + "_link")
+        if not link.exists():
+            os.symlink(base, link)
+        return link / root_rel
+    if style == "cwd_elsewhere":
+        os.chdir("/")
+        return base / root_rel
+    return base / root_rel
+
+
+def judge(par, base: Path, files, root_rel, expect, logger_mode, path_style="abs"):
     """expect: ("same", single_cats) | ("names", basename, extra). Returns (violations, outcome)."""
     K.sync_files(base, files)
-    res = par.parse("file", base / root_rel, logger_mode)
+    res = par.parse("file", root_path(base, root_rel, path_style), logger_mode)
     out = res["outcome"]
     if out == "hang":
         return [("hang", "parse", res["detail"])], out
@@ -244,12 +263,15 @@ def run_one(seed: int, index: int, tier: str) -> dict:
         prev = []
         # fault-free
         sub = base / "tree" if inplace else base / "t0"
-        v, out = judge(par, sub, files, "main.fcp", ("same", want), logger_mode)
+        path_style = stream(run_seed, "swarm2b").choice(["abs", "abs", "rel", "dotdot", "symlink", "cwd_elsewhere"])
+        probes["root_path:" + path_style] += 1
+        v, out = judge(par, sub, files, "main.fcp", ("same", want), logger_mode, path_style)
         prev.append(files)
         res["evals"] += 1
         tr.add("clean", outcome=out, v=[x[:2] for x in v])
         for x in v:
-            res["violations"].append(mk(x, {"tree": tree_json, "fault": None, "logger": logger_mode, "history": []}, index))
+            res["violations"].append(mk(x, {"tree": tree_json, "fault": None, "logger": logger_mode, "history": [],
+                                            "path_style": path_style}, index))
         if len(nodes) > 1:
             distinct.add(short([shape, "clean"]))
         # one fault per module and kind
@@ -260,7 +282,7 @@ def run_one(seed: int, index: int, tier: str) -> dict:
                 ffiles, detail = make_fault(rf, n, kind, files)
                 sub = base / "tree" if inplace else base / f"t{k}"
                 bname = os.path.basename(n["file"])
-                v, out = judge(par, sub, ffiles, "main.fcp", ("names", bname, detail.get("type"), kind), logger_mode)
+                v, out = judge(par, sub, ffiles, "main.fcp", ("names", bname, detail.get("type"), kind), logger_mode, path_style)
                 hist = prev[-2:] if inplace else []
                 prev.append(ffiles)
                 res["evals"] += 1
@@ -273,7 +295,7 @@ def run_one(seed: int, index: int, tier: str) -> dict:
                     res["violations"].append(mk(x, {"tree": tree_json, "fault": {"file": n["file"], "kind": kind,
                                                                                   "text": ffiles.get(n["file"])},
                                                     "logger": logger_mode, "expect_type": detail.get("type"),
-                                                    "history": hist}, index))
+                                                    "history": hist, "path_style": path_style}, index))
     res["digest"] = tr.digest()
     res["probes"] = probes
     res["faults"] = faults
@@ -315,9 +337,9 @@ def check_workload(w):
         # earlier configurations of the same directory, parsed by the same process (not judged)
         for hf in w.get("history", []):
             K.sync_files(base / "t", hf)
-            par.parse("file", base / "t" / "main.fcp", w.get("logger", "fresh"))
+            par.parse("file", root_path(base / "t", "main.fcp", w.get("path_style", "abs")), w.get("logger", "fresh"))
         if w["fault"] is None:
-            v, _ = judge(par, base / "t", files, "main.fcp", ("same", want), w.get("logger", "fresh"))
+            v, _ = judge(par, base / "t", files, "main.fcp", ("same", want), w.get("logger", "fresh"), w.get("path_style", "abs"))
         else:
             f = w["fault"]
             ff = dict(files)
@@ -326,7 +348,8 @@ def check_workload(w):
             else:
                 ff[f["file"]] = f["text"]
             v, _ = judge(par, base / "t", ff, "main.fcp",
-                         ("names", os.path.basename(f["file"]), w.get("expect_type"), f["kind"]), w.get("logger", "fresh"))
+                         ("names", os.path.basename(f["file"]), w.get("expect_type"), f["kind"]), w.get("logger", "fresh"),
+                         w.get("path_style", "abs"))
         for x in v:
             out.append(mk(x, w))
     return out
